@@ -106,14 +106,18 @@ def gen_cases(rng, tier, scale):
             ('{{#each two}}{{this}}{{/each}}.\n', '{{#each two}}{{this}}{{#if no}}, {{/if}}{{/each}}.\n'),
             ('a{{> leaf}}o\n', 'a{{> leaf}}{{> empty}}o\n'), ('text\nnext\n', '{{> empty}}text\nnext\n'),
             ('text\nnext\n', '{{#if no}}x{{/if}}text\nnext\n'), ('{{#with o}}w{{/with}};\nq\n', '{{#with o}}w{{e}}{{/with}};\nq\n'),
-            ('items:{{#each two}}\n{{this}}\n{{/each}}end\n', 'items:{{#each two}}\n{{this}}\n{{#if no}}x{{/if}}{{/each}}end\n')]
-    MAINS = ['<\n  {{> mid}}\n>', 'a\n    {{> outer}}\nz', 'abc\n{{~#if yes}}\n  {{> mid}}\n{{/if}}', '\t{{> mid}}', '{{> outer}}']
+            ('items:{{#each two}}\n{{this}}\n{{/each}}end\n', 'items:{{#each two}}\n{{this}}\n{{#if no}}x{{/if}}{{/each}}end\n'),
+            # constructs whose only write is an EMPTY string (they do call the writer)
+            ('bar\n', '{{#if yes}}{{e}}{{/if}}bar\n'), ('bar\n', '{{lookup this "e"}}bar\n'), ('bar\n', '{{> qe}}bar\n'), ('bar\n', '{{{e}}}bar\n'),
+            ('x{{#with o}}{{/with}}bar\n', 'x{{#with o}}{{@root.e}}{{/with}}bar\n')]
+    MAINS = ['<\n  {{> mid}}\n>', 'a\n    {{> outer}}\nz', 'abc\n{{~#if yes}}\n  {{> mid}}\n{{/if}}', '\t{{> mid}}', '{{> outer}}',
+             '{{> nonl}}\n  {{> mid}}\n', 'k{{> nonl}}\n\t{{> outer}}\n']
     kn = 0
     for tb, ub in NOOP:
         for main in MAINS:
             data = {'v': 'V', 'yes': True, 'no': False, 'two': [1, 2], 'none': [], 'e': '', 'o': {'v': 'in'}}
             for nm, body in (('T', tb), ('U', ub)):
-                parts = {'empty': '', 'leaf': 'L\nl2\n', 'mid': body, 'outer': 'head\n{{> mid}}| tail\n'}
+                parts = {'empty': '', 'leaf': 'L\nl2\n', 'mid': body, 'outer': 'head\n{{> mid}}| tail\n', 'nonl': 'foo', 'qe': '{{e}}'}
                 cases.append(rcase(f'nf{kn}{nm}', main, data, partials=parts, entry=0, kind='noop' + nm, grp=f'nf{kn}', E=ub, tags=['noop-fixed']))
             kn += 1
     # state probes between siblings
